@@ -125,6 +125,9 @@ pub fn worker(job_json: &str) -> i32 {
     };
     PROGRESS.store(u64::MAX, Ordering::Relaxed);
     let mut out = out;
+    for f in out.failures.iter_mut() {
+        f.job_from = spec.from;
+    }
     let spill = |v: &mut Vec<u64>, tag: &str| -> Option<String> {
         if v.len() <= 20_000 {
             return None;
@@ -650,6 +653,17 @@ pub fn run(prop: &str, tier: &str) -> i32 {
         } else {
             (raw_path.clone(), false)
         };
+        // The scenario alone does not reproduce: the failure may depend on what
+        // ran before it in the same process (hidden state across operations).
+        // Replay a window of run indices ending in the failing one instead.
+        let (final_path, ok) = if ok {
+            (final_path, ok)
+        } else {
+            match range_replay(engine, prop, seed, f) {
+                Some(p) => (p, true),
+                None => (final_path, false),
+            }
+        };
         if !ok {
             harness_errors.push(format!(
                 "failure of class {} at index {} did not reproduce from its replay file {} (simulator bug, not a finding)",
@@ -733,6 +747,36 @@ pub fn run(prop: &str, tier: &str) -> i32 {
         return 2;
     }
     0
+}
+
+/// Smallest window [from, idx] (doubling backwards from idx, bounded by the
+/// worker job's first index) whose re-execution in one fresh process fails at
+/// idx with the same class; written as a replay file of engine "<engine>-range".
+fn range_replay(engine: &str, prop: &str, seed: u64, f: &Failure) -> Option<String> {
+    let mut back: u64 = 1;
+    loop {
+        let from = f.idx.saturating_sub(back).max(f.job_from);
+        let rf = ReplayFile {
+            engine: format!("{}-range", engine),
+            property: prop.to_string(),
+            class: f.class.clone(),
+            detail: f.detail.clone(),
+            seed,
+            scenario: serde_json::json!({"class": f.gen_class, "from": from, "to": f.idx + 1, "failing_index": f.idx,
+                "failing_scenario": f.scenario}),
+            history: vec![],
+            note: "the failing scenario does not fail alone: it depends on the runs executed before it in the same process; this file replays the whole window of run indices".into(),
+        };
+        let path = write_replay(prop, seed, &format!("{}-{}-window", f.class, f.idx), &rf);
+        let (code, class) = replay_fresh(&path, Duration::from_secs(900));
+        if code == Some(1) && class == f.class {
+            return Some(path);
+        }
+        if from == f.job_from {
+            return None;
+        }
+        back *= 4;
+    }
 }
 
 fn write_generated_replay(spec: &JobSpec, idx: u64, class: &str, detail: &str) -> String {
@@ -936,6 +980,39 @@ pub fn replay(path: &str, verbose: bool) -> i32 {
             }
         }
         "thread" => threadsim::replay(&rf, path, verbose),
+        "stream-range" | "thread-range" => {
+            let eng = rf.engine.trim_end_matches("-range").to_string();
+            let spec = JobSpec {
+                engine: eng.clone(),
+                prop: rf.property.clone(),
+                seed: rf.seed,
+                class: rf.scenario["class"].as_str().unwrap_or("small").to_string(),
+                from: rf.scenario["from"].as_u64().unwrap_or(0),
+                to: rf.scenario["to"].as_u64().unwrap_or(0),
+                want_samples: 0,
+            };
+            let failing = rf.scenario["failing_index"].as_u64().unwrap_or(u64::MAX);
+            let noop = |_i: u64| {};
+            let out: WorkerOut = if eng == "stream" {
+                streamdrv::run_job(
+                    &Job { prop: spec.prop.clone(), seed: spec.seed, class: spec.class.clone(), from: spec.from, to: spec.to, want_samples: 0 },
+                    &noop,
+                )
+            } else {
+                threadsim::run_job(&spec, &noop)
+            };
+            match out.failures.iter().find(|f| f.idx == failing) {
+                Some(f) => {
+                    println!("REPLAY class={} property={} detail: (window {}..{}) {}", f.class, rf.property, spec.from, spec.to, f.detail);
+                    println!("VIOLATION property={} replay={}", rf.property, path);
+                    1
+                }
+                None => {
+                    println!("REPLAY held property={} (window {}..{})", rf.property, spec.from, spec.to);
+                    0
+                }
+            }
+        }
         other => {
             eprintln!("unknown engine {}", other);
             2
